@@ -78,6 +78,7 @@ fn dispatch(sub: &str, rest: &[String]) {
         "cargobuild" => gen::run_cargobuild(rest),
         "idlnames" => idl::run_names(rest),
         "idltok" => idl::run_tokens(rest),
+        "idlwords" => idl::run_words(rest),
         "idlast" => idl::run_ast(rest),
         "idlfuzz" => idl::run_fuzz(rest),
         "idlcli" => idl::run_cli(rest),
